@@ -11,7 +11,7 @@ __all__ = ['GithubWiki', 'GithubWikiRenderer']
 
 
 class GithubWiki(SpanToken):
-    pattern = re.compile(r"\[\[ *(.+?) *\| *(.+?) *\]\]")
+    pattern = re.compile(r"\[\[ *(.[^|\n]*?) *\| *(.+?) *\]\]")
 
     def __init__(self, match):
         self.target = match.group(2)
